@@ -1,7 +1,797 @@
 package main
 
-// replayObligation tries to turn the solver's model into a concrete run of the real function.
-// Returns true when the real code reproduced the failure.
+import (
+	"encoding/json"
+	"fmt"
+	"go/types"
+	"os"
+	"os/exec"
+	"path/filepath"
+	"regexp"
+	"strconv"
+	"strings"
+	"time"
+)
+
+// Replay: turn the solver's counterexample for a failed obligation into a concrete run of the real
+// function. The model is read back in rounds (parameters first, then the heap objects and slice
+// elements they reach), converted into a JSON value graph, and an in-package test injected with
+// `go test -overlay` builds those values by reflection and calls the real function. Reproduced means:
+// the real code panicked (safety obligations) or the executable postcondition evaluated to false.
+
+type rnode struct {
+	Kind   string            `json:"kind"` // nil, ptr, struct, slice, string, int, bool, time, float, unsupported
+	Str    string            `json:"str,omitempty"`
+	Int    int64             `json:"int,omitempty"`
+	Bool   bool              `json:"bool,omitempty"`
+	To     *rnode            `json:"to,omitempty"`
+	Fields map[string]*rnode `json:"fields,omitempty"`
+	Elems  []*rnode          `json:"elems,omitempty"`
+	Note   string            `json:"note,omitempty"`
+}
+
+// ---- s-expressions -------------------------------------------------------------------------
+
+type sexp struct {
+	atom string
+	list []*sexp
+	isL  bool
+}
+
+func parseSexps(s string) []*sexp {
+	var out []*sexp
+	i := 0
+	var parse func() *sexp
+	skip := func() {
+		for i < len(s) && (s[i] == ' ' || s[i] == '\n' || s[i] == '\t' || s[i] == '\r') {
+			i++
+		}
+	}
+	parse = func() *sexp {
+		skip()
+		if i >= len(s) {
+			return nil
+		}
+		switch s[i] {
+		case '(':
+			i++
+			n := &sexp{isL: true}
+			for {
+				skip()
+				if i >= len(s) {
+					return n
+				}
+				if s[i] == ')' {
+					i++
+					return n
+				}
+				c := parse()
+				if c == nil {
+					return n
+				}
+				n.list = append(n.list, c)
+			}
+		case '"':
+			j := i + 1
+			for j < len(s) {
+				if s[j] == '"' {
+					if j+1 < len(s) && s[j+1] == '"' {
+						j += 2
+						continue
+					}
+					break
+				}
+				j++
+			}
+			a := s[i:min(j+1, len(s))]
+			i = j + 1
+			return &sexp{atom: a}
+		case '|':
+			j := strings.IndexByte(s[i+1:], '|')
+			if j < 0 {
+				i = len(s)
+				return nil
+			}
+			a := s[i : i+j+2]
+			i += j + 2
+			return &sexp{atom: a}
+		}
+		j := i
+		for j < len(s) && !strings.ContainsRune(" \n\t\r()", rune(s[j])) {
+			j++
+		}
+		a := s[i:j]
+		i = j
+		return &sexp{atom: a}
+	}
+	for {
+		skip()
+		if i >= len(s) {
+			break
+		}
+		if s[i] == ')' {
+			i++
+			continue
+		}
+		n := parse()
+		if n == nil {
+			break
+		}
+		out = append(out, n)
+	}
+	return out
+}
+
+func (x *sexp) String() string {
+	if !x.isL {
+		return x.atom
+	}
+	var ps []string
+	for _, c := range x.list {
+		ps = append(ps, c.String())
+	}
+	return "(" + strings.Join(ps, " ") + ")"
+}
+
+func sexpInt(x *sexp) (int64, bool) {
+	if x == nil {
+		return 0, false
+	}
+	if !x.isL {
+		v, err := strconv.ParseInt(x.atom, 10, 64)
+		return v, err == nil
+	}
+	if len(x.list) == 2 && x.list[0].atom == "-" {
+		v, ok := sexpInt(x.list[1])
+		return -v, ok
+	}
+	return 0, false
+}
+
+func smtUnescape(lit string) string {
+	if len(lit) >= 2 && lit[0] == '"' {
+		lit = lit[1 : len(lit)-1]
+	}
+	lit = strings.Replace(lit, `""`, `"`, -1)
+	re := regexp.MustCompile(`\\u\{([0-9a-fA-F]+)\}`)
+	return re.ReplaceAllStringFunc(lit, func(m string) string {
+		h := re.FindStringSubmatch(m)[1]
+		v, _ := strconv.ParseInt(h, 16, 32)
+		return string(rune(v))
+	})
+}
+
+// ---- reading the model back ------------------------------------------------------------------
+
+type modelReader struct {
+	u       *Unit
+	ob      *Obligation
+	cache   map[string]*sexp
+	calls   int
+	failures int
+	want    []string
+	deadline time.Time
+	extra   []string // additional constraints (model minimisation: short slices)
+	prefer  []string // constraints that would make the model constructible (nil funcs / interfaces)
+	tooLong []string // symbolic slice terms whose model length exceeded the replay bound
+}
+
+const replaySliceBound = 3
+
+// eval asks the solver for the values of the given closed terms under the model of the (constrained) query.
+func (m *modelReader) eval(terms []string) {
+	var need []string
+	for _, t := range terms {
+		if _, ok := m.cache[t]; !ok {
+			need = append(need, t)
+		}
+	}
+	if len(need) == 0 || m.calls > 120 || (!m.deadline.IsZero() && time.Now().After(m.deadline)) {
+		return
+	}
+	m.calls++
+	q := m.u.queryV(m.ob, false, false, true)
+	q = strings.Replace(q, "(check-sat)\n", strings.Join(m.extra, "\n")+"\n(check-sat)\n", 1)
+	q = "(set-option :produce-models true)\n" + q + "(get-value (" + strings.Join(need, " ") + "))\n"
+	r := runSolver(z3new, q, 5*time.Second)
+	if r.result != "sat" {
+		m.failures++
+		if m.failures >= 2 {
+			m.deadline = time.Now() // the solver cannot re-produce models for this query quickly: give up
+		}
+		return
+	}
+	i := strings.Index(r.out, "sat")
+	xs := parseSexps(r.out[i+3:])
+	if len(xs) == 0 || !xs[0].isL {
+		return
+	}
+	for k, pair := range xs[0].list {
+		if k < len(need) && pair.isL && len(pair.list) == 2 {
+			m.cache[need[k]] = pair.list[1]
+		}
+	}
+}
+
+// value returns the cached model value of a term; unknown terms are queued and fetched level by level.
+func (m *modelReader) value(term string) *sexp {
+	if v, ok := m.cache[term]; ok {
+		return v
+	}
+	m.want = append(m.want, term)
+	return nil
+}
+
+// fetch evaluates all queued terms in one solver call; false when nothing was pending.
+func (m *modelReader) fetch() bool {
+	if len(m.want) == 0 {
+		return false
+	}
+	w := m.want
+	m.want = nil
+	m.eval(w)
+	for _, t := range w {
+		if _, ok := m.cache[t]; !ok {
+			m.cache[t] = nil // unavailable: do not ask again
+		}
+	}
+	return true
+}
+
+// node reads the value designated by the closed symbolic term sym (of Go type t) from the model.
+func (m *modelReader) node(t types.Type, sym string, depth int, seen map[string]bool) *rnode {
+	s := m.u.sorts
+	v := m.value(sym)
+	if v == nil {
+		return &rnode{Kind: "unsupported", Note: "no model value"}
+	}
+	if isTime(t) {
+		n, _ := sexpInt(v)
+		return &rnode{Kind: "time", Int: n}
+	}
+	switch u := t.Underlying().(type) {
+	case *types.Basic:
+		switch {
+		case u.Info()&types.IsBoolean != 0:
+			return &rnode{Kind: "bool", Bool: v.atom == "true"}
+		case u.Info()&types.IsString != 0:
+			return &rnode{Kind: "string", Str: smtUnescape(v.atom)}
+		case u.Info()&types.IsInteger != 0:
+			n, _ := sexpInt(v)
+			return &rnode{Kind: "int", Int: n}
+		}
+		return &rnode{Kind: "unsupported", Note: "basic " + u.Name()}
+	case *types.Pointer:
+		ref, _ := sexpInt(v)
+		if ref == 0 {
+			return &rnode{Kind: "nil"}
+		}
+		key := fmt.Sprintf("%s#%d", s.typeKey(u.Elem()), ref)
+		if depth > 6 || seen[key] {
+			return &rnode{Kind: "ptr", To: &rnode{Kind: "unsupported", Note: "depth/cycle: zero value used"}}
+		}
+		seen[key] = true
+		defer delete(seen, key)
+		h, ok := m.u.initHeap["H:"+s.typeKey(u.Elem())]
+		if !ok {
+			return &rnode{Kind: "ptr", To: &rnode{Kind: "unsupported", Note: "object never read: zero value used"}}
+		}
+		return &rnode{Kind: "ptr", To: m.node(u.Elem(), fmt.Sprintf("(select %s %s)", h, sym), depth+1, seen)}
+	case *types.Struct:
+		if nt, ok := t.(*types.Named); ok && nt.Obj().Pkg() != nil && nt.Obj().Pkg().Path() == "net/url" && nt.Obj().Name() == "URL" {
+			// url.URL{Opaque: s} realises String() == s, the only thing the contracts observe of a URL
+			f := q("ext:(*net/url.URL).String")
+			if m.u.sorts.ufs[f] {
+				if sv := m.value(fmt.Sprintf("(%s %s)", f, sym)); sv != nil && !sv.isL {
+					return &rnode{Kind: "struct", Fields: map[string]*rnode{"Opaque": {Kind: "string", Str: smtUnescape(sv.atom)}}}
+				}
+			}
+		}
+		n := &rnode{Kind: "struct", Fields: map[string]*rnode{}}
+		for i := 0; i < u.NumFields(); i++ {
+			n.Fields[u.Field(i).Name()] = m.node(u.Field(i).Type(), fmt.Sprintf("(%s %s)", s.fieldSel(t, i), sym), depth+1, seen)
+		}
+		return n
+	case *types.Slice:
+		if !v.isL || len(v.list) != 5 {
+			return &rnode{Kind: "unsupported", Note: "slice value " + v.String()}
+		}
+		arr, _ := sexpInt(v.list[1])
+		ln, _ := sexpInt(v.list[3])
+		if arr == 0 {
+			return &rnode{Kind: "nil"}
+		}
+		n := &rnode{Kind: "slice"}
+		if ln > replaySliceBound {
+			m.tooLong = append(m.tooLong, sym)
+			n.Note = fmt.Sprintf("model length %d exceeds the replay bound", ln)
+			ln = replaySliceBound
+		}
+		h, ok := m.u.initHeap["E:"+s.typeKey(u.Elem())]
+		for i := int64(0); i < ln; i++ {
+			if ok {
+				n.Elems = append(n.Elems, m.node(u.Elem(), fmt.Sprintf("(select (select %s (s-arr %s)) (+ (s-off %s) %d))", h, sym, sym, i), depth+1, seen))
+			} else {
+				n.Elems = append(n.Elems, &rnode{Kind: "unsupported", Note: "elements never read: zero value used"})
+			}
+		}
+		return n
+	case *types.Interface:
+		if v.isL && len(v.list) == 3 {
+			if tag, _ := sexpInt(v.list[1]); tag == 0 {
+				return &rnode{Kind: "nil"}
+			}
+		}
+		m.prefer = append(m.prefer, fmt.Sprintf("(assert (= (i-tag %s) 0))", sym))
+		return &rnode{Kind: "unsupported", Note: "non-nil interface value cannot be constructed from a model: left nil"}
+	case *types.Signature:
+		if n, _ := sexpInt(v); n != 0 {
+			m.prefer = append(m.prefer, fmt.Sprintf("(assert (= %s 0))", sym))
+			return &rnode{Kind: "unsupported", Note: "non-nil function value cannot be constructed from a model: left nil"}
+		}
+		return &rnode{Kind: "nil"}
+	}
+	return &rnode{Kind: "nil", Note: "type " + t.String() + " left at zero value"}
+}
+
+// ---- the replay test -----------------------------------------------------------------------------
+
+const replayHelper = `
+type rnode struct {
+	Kind   string            ` + "`json:\"kind\"`" + `
+	Str    string            ` + "`json:\"str\"`" + `
+	Int    int64             ` + "`json:\"int\"`" + `
+	Bool   bool              ` + "`json:\"bool\"`" + `
+	To     *rnode            ` + "`json:\"to\"`" + `
+	Fields map[string]*rnode ` + "`json:\"fields\"`" + `
+	Elems  []*rnode          ` + "`json:\"elems\"`" + `
+}
+
+func govcBuild(t reflect.Type, n *rnode) reflect.Value {
+	v := reflect.New(t).Elem()
+	if n == nil {
+		return v
+	}
+	if t == reflect.TypeOf(time.Time{}) || (t.Kind() == reflect.Struct && t.ConvertibleTo(reflect.TypeOf(time.Time{})) && n.Kind == "time") {
+		if n.Kind == "time" {
+			tv := reflect.ValueOf(time.Unix(0, n.Int).UTC())
+			if n.Int == 0 {
+				tv = reflect.ValueOf(time.Time{})
+			}
+			return tv.Convert(t)
+		}
+		return v
+	}
+	switch n.Kind {
+	case "nil", "unsupported":
+		return v
+	case "bool":
+		v.SetBool(n.Bool)
+	case "string":
+		v.SetString(n.Str)
+	case "int":
+		switch t.Kind() {
+		case reflect.Int, reflect.Int8, reflect.Int16, reflect.Int32, reflect.Int64:
+			v.SetInt(n.Int)
+		case reflect.Uint, reflect.Uint8, reflect.Uint16, reflect.Uint32, reflect.Uint64, reflect.Uintptr:
+			v.SetUint(uint64(n.Int))
+		}
+	case "ptr":
+		if t.Kind() != reflect.Ptr {
+			return v
+		}
+		p := reflect.New(t.Elem())
+		p.Elem().Set(govcBuild(t.Elem(), n.To))
+		v.Set(p)
+	case "struct":
+		if t.Kind() != reflect.Struct {
+			return v
+		}
+		for i := 0; i < t.NumField(); i++ {
+			fn, ok := n.Fields[t.Field(i).Name]
+			if !ok {
+				continue
+			}
+			fv := v.Field(i)
+			fv = reflect.NewAt(fv.Type(), unsafe.Pointer(fv.UnsafeAddr())).Elem()
+			fv.Set(govcBuild(t.Field(i).Type, fn))
+		}
+	case "slice":
+		if t.Kind() != reflect.Slice {
+			return v
+		}
+		s := reflect.MakeSlice(t, len(n.Elems), len(n.Elems))
+		for i, e := range n.Elems {
+			s.Index(i).Set(govcBuild(t.Elem(), e))
+		}
+		v.Set(s)
+	}
+	return v
+}
+`
+
+type replayFile struct {
+	Property   string            `json:"property"`
+	Obligation string            `json:"obligation"`
+	Kind       string            `json:"kind"`
+	Function   string            `json:"function"`
+	Position   string            `json:"position"`
+	Clause     string            `json:"clause"`
+	Solver     string            `json:"solver"`
+	Result     string            `json:"result"`
+	SolverOut  string            `json:"solver_output"`
+	PkgDir     string            `json:"package_dir"`
+	CallExpr   string            `json:"call_expr"`
+	Inputs     map[string]*rnode `json:"inputs,omitempty"`
+	ParamOrder []string          `json:"param_order,omitempty"`
+	Globals    map[string]*rnode `json:"globals,omitempty"`
+	SpecFunc   string            `json:"spec_func,omitempty"`
+	SpecSrc    string            `json:"spec_source,omitempty"` // executable form of the package's specification file
+	Outcome    string            `json:"outcome,omitempty"`
+	Confirmed  bool              `json:"confirmed"`
+	ExternPre  bool              `json:"extern_precondition,omitempty"`
+	TestOutput string            `json:"test_output,omitempty"`
+	Note       string            `json:"note,omitempty"`
+}
+
+// goCallExpr returns the in-package expression denoting the function (method expression for methods).
+func goCallExpr(u *Unit) (pkgDir, expr string, ok bool) {
+	fn := u.fn
+	if fn.Pkg == nil || fn.Parent() != nil {
+		return "", "", false
+	}
+	path := fn.Pkg.Pkg.Path()
+	pkgDir = strings.TrimPrefix(strings.TrimPrefix(path, modPath), "/")
+	if recv := fn.Signature.Recv(); recv != nil {
+		rt := recv.Type()
+		if p, isP := rt.(*types.Pointer); isP {
+			if n, isN := p.Elem().(*types.Named); isN {
+				return pkgDir, "(*" + n.Obj().Name() + ")." + fn.Name(), true
+			}
+			return "", "", false
+		}
+		if n, isN := rt.(*types.Named); isN {
+			return pkgDir, n.Obj().Name() + "." + fn.Name(), true
+		}
+		return "", "", false
+	}
+	return pkgDir, fn.Name(), true
+}
+
 func replayObligation(e *Engine, prop string, ob *Obligation, path string) bool {
+	rf := &replayFile{Property: prop, Obligation: ob.Name, Kind: ob.Kind, Function: funcName(ob.Unit.fn), Position: ob.Pos,
+		Clause: ob.Clause, Solver: ob.Solver, Result: ob.Result, SolverOut: ob.Model}
+	defer func() {
+		out, _ := json.MarshalIndent(rf, "", " ")
+		os.WriteFile(path, append(out, '\n'), 0o644)
+	}()
+	if ob.Result != "sat" {
+		rf.Note = "the solvers did not produce a model (" + ob.Result + "): no input to replay"
+		return false
+	}
+	u := ob.Unit
+	pkgDir, expr, ok := goCallExpr(u)
+	if !ok {
+		rf.Note = "function cannot be called from a generated test (closure or unnamed receiver)"
+		return false
+	}
+	rf.PkgDir, rf.CallExpr = pkgDir, expr
+	if ob.Kind == "pre" {
+		if i := strings.Index(ob.Name, "#pre:"); i >= 0 {
+			callee := ob.Name[i+5:]
+			if j := strings.LastIndex(callee, "."); j > 0 {
+				callee = callee[:j]
+			}
+			_, rf.ExternPre = e.externs[callee]
+			if _, isRepo := e.contracts[callee]; isRepo {
+				rf.ExternPre = false
+			}
+		}
+	}
+	// read the model; if it uses slices longer than the replay bound, constrain them and ask again (minimisation)
+	mr := &modelReader{u: u, ob: ob, cache: map[string]*sexp{}, deadline: time.Now().Add(40 * time.Second)}
+	for round := 0; round < 6; round++ {
+		if time.Now().After(mr.deadline) {
+			rf.Note = "replay budget exhausted while reading the model"
+			break
+		}
+		mr.cache = map[string]*sexp{}
+		mr.tooLong = nil
+		for pass := 0; pass < 14; pass++ {
+			mr.tooLong = nil
+			mr.prefer = nil
+			rf.Inputs = map[string]*rnode{}
+			rf.ParamOrder = nil
+			for i, p := range u.fn.Params {
+				if i >= len(u.valueTerms) {
+					break
+				}
+				name := fmt.Sprintf("arg%d_%s", i, p.Name())
+				rf.ParamOrder = append(rf.ParamOrder, name)
+				rf.Inputs[name] = mr.node(p.Type(), u.valueTerms[i], 0, map[string]bool{})
+			}
+			if !mr.fetch() {
+				break
+			}
+		}
+		if len(mr.tooLong) == 0 && len(mr.prefer) == 0 {
+			break
+		}
+		var cons []string
+		for _, t := range mr.tooLong {
+			cons = append(cons, fmt.Sprintf("(assert (<= (s-len %s) %d))", t, replaySliceBound))
+		}
+		cons = append(cons, mr.prefer...)
+		feasible := func(extra []string) bool {
+			trial := &modelReader{u: u, ob: ob, cache: map[string]*sexp{}, extra: extra, deadline: mr.deadline}
+			trial.eval([]string{"true"})
+			return trial.cache["true"] != nil
+		}
+		all := append(append([]string{}, mr.extra...), cons...)
+		if feasible(all) {
+			mr.extra = all
+			continue
+		}
+		// not all at once: keep the constraints that are individually compatible (greedy)
+		kept := 0
+		for _, c := range cons {
+			if kept >= 8 {
+				break
+			}
+			if trial := append(append([]string{}, mr.extra...), c); feasible(trial) {
+				mr.extra = trial
+				kept++
+			}
+		}
+		if kept == 0 {
+			rf.Note = "the counterexample needs values that a generated test cannot construct (long slices, function or interface values)"
+			break
+		}
+	}
+	// package variables of basic type read by the function (tolerances etc.)
+	rf.Globals = map[string]*rnode{}
+	for name, term := range u.initHeap {
+		if !strings.HasPrefix(name, "G:") {
+			continue
+		}
+		gp := name[2:]
+		i := strings.LastIndex(gp, ".")
+		if gp[:i] != u.fn.Pkg.Pkg.Path() {
+			continue
+		}
+		obj := u.fn.Pkg.Pkg.Scope().Lookup(gp[i+1:])
+		if obj == nil {
+			continue
+		}
+		if b, isB := obj.Type().Underlying().(*types.Basic); isB && b.Info()&(types.IsInteger|types.IsString|types.IsBoolean) != 0 {
+			mr.value(term)
+			mr.fetch()
+			rf.Globals[gp[i+1:]] = mr.node(obj.Type(), term, 0, map[string]bool{})
+		}
+	}
+	if ob.SpecFn != "" {
+		if src, ok := e.overlay[filepath.Join(repoDir, pkgDir, "zz_verif_spec.go")]; ok {
+			rf.SpecFunc = ob.SpecFn
+			rf.SpecSrc = executableSpec(string(src))
+		}
+	}
+	return runReplay(rf, path)
+}
+
+// executableSpec turns the synthesised specification file into executable Go: quantifiers loop, ns() reads the
+// clock value, slice-identity builtins compare headers, ghost functions panic (a clause that needs them cannot be
+// evaluated on a concrete run and stays inconclusive).
+func executableSpec(src string) string {
+	var out []string
+	sig := regexp.MustCompile(`^func ([A-Za-z0-9_]+)\((.*)\) ([A-Za-z0-9_.\[\]*]+)$`)
+	for _, ln := range strings.Split(src, "\n") {
+		t := strings.TrimSpace(ln)
+		if strings.HasPrefix(t, "func ") && !strings.Contains(t, "{") {
+			m := sig.FindStringSubmatch(t)
+			name := ""
+			if m != nil {
+				name = m[1]
+			}
+			switch {
+			case name == "forall":
+				ln = "func forall(lo, hi int, f func(k int) bool) bool { for k := lo; k < hi; k++ { if !f(k) { return false } }; return true }"
+			case name == "exists":
+				ln = "func exists(lo, hi int, f func(k int) bool) bool { for k := lo; k < hi; k++ { if f(k) { return true } }; return false }"
+			case name == "ns":
+				ln = "func ns(t time.Time) int64 { if t.IsZero() { return 0 }; return t.UnixNano() }"
+			case strings.HasPrefix(name, "same") && m != nil:
+				ln = t + " { return len(a) == len(b) && (len(a) == 0 || &a[0] == &b[0]) }"
+			case m != nil:
+				ln = t + fmt.Sprintf(" { panic(\"govc-ghost:%s\") }", name)
+			default:
+				ln = t + " { panic(\"govc-ghost\") }"
+			}
+		}
+		out = append(out, ln)
+	}
+	return strings.Join(out, "\n")
+}
+
+// runReplay generates the test, runs it against /repo's working tree and records the outcome.
+func runReplay(rf *replayFile, path string) bool {
+	dir, err := os.MkdirTemp("", "govc-replay-")
+	if err != nil {
+		rf.Note = err.Error()
+		return false
+	}
+	defer os.RemoveAll(dir)
+	pkgName := "saml"
+	if rf.PkgDir != "" {
+		pkgName = rf.PkgDir
+	}
+	in, _ := json.Marshal(rf.Inputs)
+	gl, _ := json.Marshal(rf.Globals)
+	order, _ := json.Marshal(rf.ParamOrder)
+	var gset strings.Builder
+	for g := range rf.Globals {
+		fmt.Fprintf(&gset, "\tif n, ok := globals[%q]; ok { reflect.ValueOf(&%s).Elem().Set(govcBuild(reflect.TypeOf(%s), n)) }\n", g, g, g)
+	}
+	specCall := ""
+	if rf.SpecFunc != "" && rf.SpecSrc != "" {
+		specCall = fmt.Sprintf(`func() {
+			defer func() {
+				if r := recover(); r != nil {
+					fmt.Printf("GOVC-REPLAY-CLAUSE inconclusive: %%v\n", r)
+				}
+			}()
+			res := reflect.ValueOf(%s).Call(append(args, out...))
+			fmt.Printf("GOVC-REPLAY-CLAUSE holds=%%v\n", res[0].Bool())
+		}()`, rf.SpecFunc)
+	}
+	src := fmt.Sprintf(`package %s
+
+import (
+	"encoding/json"
+	"fmt"
+	"reflect"
+	"runtime/debug"
+	"testing"
+	"time"
+	"unsafe"
+)
+%s
+var _ = unsafe.Pointer(nil)
+var _ = time.Now
+
+func TestGovcReplay(t *testing.T) {
+	inputs := map[string]*rnode{}
+	globals := map[string]*rnode{}
+	var order []string
+	json.Unmarshal([]byte(%q), &inputs)
+	json.Unmarshal([]byte(%q), &globals)
+	json.Unmarshal([]byte(%q), &order)
+%s
+	fn := reflect.ValueOf(%s)
+	var args []reflect.Value
+	for i, name := range order {
+		args = append(args, govcBuild(fn.Type().In(i), inputs[name]))
+	}
+	func() {
+		defer func() {
+			if r := recover(); r != nil {
+				fmt.Printf("GOVC-REPLAY-OUTCOME panic: %%v\n", r)
+				fmt.Printf("GOVC-REPLAY-STACK %%s\n", debug.Stack())
+			}
+		}()
+		out := fn.Call(args)
+		var rs []string
+		for _, o := range out {
+			rs = append(rs, fmt.Sprintf("%%v", o.Interface()))
+		}
+		fmt.Printf("GOVC-REPLAY-OUTCOME returned: %%q\n", rs)
+		%s
+	}()
+}
+`, pkgName, replayHelper, string(in), string(gl), string(order), gset.String(), rf.CallExpr, specCall)
+	testPath := filepath.Join(dir, "zz_govc_replay_test.go")
+	os.WriteFile(testPath, []byte(src), 0o644)
+	ov := map[string]map[string]string{"Replace": {filepath.Join(repoDir, rf.PkgDir, "zz_govc_replay_test.go"): testPath}}
+	if rf.SpecFunc != "" && rf.SpecSrc != "" {
+		specPath := filepath.Join(dir, "zz_govc_spec_test.go")
+		os.WriteFile(specPath, []byte(rf.SpecSrc), 0o644)
+		ov["Replace"][filepath.Join(repoDir, rf.PkgDir, "zz_govc_spec_test.go")] = specPath
+	}
+	ovb, _ := json.Marshal(ov)
+	ovPath := filepath.Join(dir, "overlay.json")
+	os.WriteFile(ovPath, ovb, 0o644)
+	pkgArg := "./" + rf.PkgDir
+	if rf.PkgDir == "" {
+		pkgArg = "."
+	}
+	cmd := exec.Command("go", "test", "-overlay", ovPath, "-vet=off", "-count=1", "-v", "-timeout", "60s", "-run", "^TestGovcReplay$", pkgArg)
+	cmd.Dir = repoDir
+	cmd.Env = append(os.Environ(), "GOFLAGS=-mod=mod", "GOPROXY=off", "GOSUMDB=off", "GOTOOLCHAIN=local")
+	outb, _ := cmd.CombinedOutput()
+	out := string(outb)
+	if len(out) > 4000 {
+		out = out[:4000]
+	}
+	rf.TestOutput = out
+	m := regexp.MustCompile(`GOVC-REPLAY-OUTCOME (.*)`).FindStringSubmatch(out)
+	if m == nil {
+		rf.Outcome = "replay test did not run to an outcome"
+		return false
+	}
+	rf.Outcome = m[1]
+	// a panic reproduces a safety obligation only if it is the panic that obligation is about
+	want := map[string]string{"nil": "nil pointer dereference", "idx": "index out of range", "slice": "slice bounds out of range",
+		"typeassert": "interface conversion", "div0": "divide by zero", "mapwrite": "assignment to entry in nil map", "panic": ""}
+	if strings.HasPrefix(m[1], "panic:") {
+		if w, ok := want[rf.Kind]; ok && strings.Contains(m[1], w) {
+			rf.Confirmed = true
+			return true
+		}
+		if rf.Kind == "pre" && rf.ExternPre {
+			// precondition of a dependency that panics when violated (IV length, full blocks, nonce length ...)
+			rf.Confirmed = true
+			return true
+		}
+		rf.Note = "the real function panicked on the model's input, but not with the failure this obligation is about"
+		return false
+	}
+	if cm := regexp.MustCompile(`GOVC-REPLAY-CLAUSE (.*)`).FindStringSubmatch(out); cm != nil {
+		rf.Outcome += " | clause " + cm[1]
+		if strings.Contains(cm[1], "holds=false") && rf.Kind == "ensures" {
+			rf.Confirmed = true
+			return true
+		}
+	}
+	if !strings.HasPrefix(m[1], "panic:") {
+		rf.Note = "the real function returned normally on the model's input and the clause could not be shown false on this run"
+	}
 	return false
+}
+
+// cmdReplay re-runs a stored replay file against the current working tree.
+func cmdReplay(args []string) {
+	if len(args) != 1 {
+		fatal("usage: govc replay <file>")
+	}
+	data, err := os.ReadFile(args[0])
+	if err != nil {
+		fatal("%v", err)
+	}
+	rf := &replayFile{}
+	if err := json.Unmarshal(data, rf); err != nil {
+		fatal("%v", err)
+	}
+	if rf.CallExpr == "" || rf.Inputs == nil {
+		// no stored input (replay budget of the check run, or a solver answer without model): regenerate the
+		// obligation from the current tree, solve it again and replay its model
+		e := setup()
+		fn := e.funcs[rf.Function]
+		if fn == nil {
+			fmt.Printf("function %s not found\n", rf.Function)
+			os.Exit(2)
+		}
+		u := e.verifyFunc(fn)
+		for _, ob := range u.obs {
+			if ob.Name == rf.Obligation {
+				u.solve(ob, "quick")
+				fmt.Printf("obligation %s: %s\n", ob.Name, ob.Result)
+				if ob.Result == "unsat" {
+					fmt.Println("the obligation is discharged on the current tree: nothing to replay")
+					os.Exit(0)
+				}
+				ok := replayObligation(e, rf.Property, ob, args[0])
+				fmt.Printf("reproduced on the real code: %v (details in %s)\n", ok, args[0])
+				if ok {
+					os.Exit(1)
+				}
+				os.Exit(0)
+			}
+		}
+		fmt.Printf("obligation %s is no longer generated\n", rf.Obligation)
+		os.Exit(2)
+	}
+	ok := runReplay(rf, args[0])
+	fmt.Printf("obligation: %s\noutcome: %s\nreproduced: %v\n", rf.Obligation, rf.Outcome, ok)
+	if ok {
+		os.Exit(1)
+	}
 }
